@@ -364,6 +364,8 @@ enum Beh {
     Skip(Option<i32>), // custom skip code set inline
     Timeout,           // sleeps past its own per-test limit
     Kill,
+    /// the wrapper shell is ended by a trappable signal (TERM = 15, HUP = 1, INT = 2) after writing the expected output
+    Signal(u8),
     Detached,
     Sleep(u64), // sleeps that long (ms) and passes; used with a document limit
     /// the same, in a shell that ignores SIGTERM (`trap '' TERM`) or defers it (`trap : TERM`): "is aborted" must not depend on the command's cooperation
@@ -429,6 +431,8 @@ fn render_doc(d: &EDoc, di: usize, marker: &Path) -> (String, Vec<T>) {
                 }
                 Beh::Timeout => (format!("{mark}; sleep 3; echo ok"), "ok", None, T { status: St::Timeout, ..base }),
                 Beh::Kill => (format!("{mark}; kill -9 $$"), "ok", None, T { status: St::Unknown, acc_out: false, ..base }),
+                // the output written before the signal is exactly what is expected: only the missing exit code tells
+                Beh::Signal(n) => (format!("{mark}; echo ok; kill -{n} $$; sleep 1; echo late"), "ok", None, T { status: St::Unknown, acc_out: true, ..base }),
                 Beh::Detached => {
                     cfg.push("detached: true".into());
                     // no marker: a detached command runs asynchronously
@@ -481,7 +485,7 @@ fn spec_outcomes(d: &EDoc) -> Option<Vec<(usize, &'static str)>> {
         Beh::Pass | Beh::PassCode(_) | Beh::Sleep(_) | Beh::SleepNoTerm(..) | Beh::WaitSleep(..) => "success",
         Beh::BadOut => "malformed_output",
         Beh::BadCode(_) => "invalid_exit_code",
-        Beh::Kill => "internal_error",
+        Beh::Kill | Beh::Signal(_) => "internal_error",
         _ => "?",
     };
     let n = d.tests.len();
@@ -513,7 +517,7 @@ fn spec_outcomes(d: &EDoc) -> Option<Vec<(usize, &'static str)>> {
                 }
                 return Some(out);
             }
-            Beh::Kill => {
+            Beh::Kill | Beh::Signal(_) => {
                 // aborted: this one and everything after it did not complete: never a success
                 for j in i..n {
                     out.push((j, "internal_error"));
@@ -538,7 +542,7 @@ fn spec_markers(d: &EDoc, di: usize) -> Vec<String> {
             continue;
         }
         v.push(format!("D{di}T{ti}"));
-        if !d.cram && matches!(b, Beh::Skip(_) | Beh::Timeout | Beh::Kill) {
+        if !d.cram && matches!(b, Beh::Skip(_) | Beh::Timeout | Beh::Kill | Beh::Signal(_)) {
             break;
         }
         if d.cram && matches!(b, Beh::ExitShell(_)) {
@@ -837,7 +841,7 @@ fn gen_edoc(rng: &mut Rng, allow_broken: bool) -> EDoc {
                 3 => Beh::Skip(None),
                 4 => Beh::Skip(Some(7)),
                 5 => Beh::Timeout,
-                6 => Beh::Kill,
+                6 => rng.pick(&[Beh::Kill, Beh::Signal(15), Beh::Signal(1), Beh::Signal(2)]).clone(),
                 7 => Beh::Detached,
                 8 => Beh::PassCode(80),
                 _ => Beh::Pass,
@@ -1016,7 +1020,7 @@ pub fn run(ctx: &Ctx, prop: &str) {
         Some(e2e_case(prop, docs, &tr, idx))
     });
     // 3b. every ordered pair of behaviours in one Markdown document: [a, pass, b, pass]
-    let behs = [Beh::Pass, Beh::PassCode(2), Beh::BadOut, Beh::BadCode(3), Beh::Skip(None), Beh::Skip(Some(7)), Beh::Timeout, Beh::Kill, Beh::Detached];
+    let behs = [Beh::Pass, Beh::PassCode(2), Beh::BadOut, Beh::BadCode(3), Beh::Skip(None), Beh::Skip(Some(7)), Beh::Timeout, Beh::Kill, Beh::Detached, Beh::Signal(15)];
     let tr = tmproot.clone();
     let nb = behs.len() as u64;
     ctx.run_stream("e2e-behaviour-pairs-exhaustive", nb * nb, true, |idx| {
